@@ -17,8 +17,8 @@ INFO = dict(
 def run(ctx):
     res = Result()
     n = ctx.n(4, 6 if ctx.search else 24)
-    seeds = [ctx.rng.randrange(1 << 30) for _ in range(n + 2)]
-    kinds = ["random"] * n + ["equal_rates", "high_ratio"]
+    seeds = [ctx.rng.randrange(1 << 30) for _ in range(n + 6)]
+    kinds = ["random"] * n + ["equal_rates", "high_ratio", "trainable", "trainable", "sink_tie", "sink_tie"]
     tasks = [dict(fn="tasks_rt:sched_case", args=dict(seed=s, spec_kind=k), timeout=1200) for s, k in zip(seeds, kinds)]
     tasks.append(dict(fn="tasks_rt:compiled_case", args=dict(seed=seeds[-1] + 1, spec_kind="high_ratio", modes=("GENERATIONAL", "TOPOLOGICAL"), prunes=(True,)), timeout=1200))
     good = ac.pool_cases(tasks, res, timeout=1200)
@@ -47,6 +47,9 @@ def run(ctx):
         if "error" in o:
             res.corr_diff("sched.check", f"driver error {o['error']}", dict(task=t))
             continue
+        for wb in it.get("window_mismatches", [])[:2]:
+            res.fail("window_oracle", f"seed={t['args']['seed']} ({t['args']['spec_kind']}) {it['mode']} prune={it['prune']} episode {it['episode']}: {wb}",
+                     dict(task=t, spec=r["spec"], mode=it["mode"], prune=it["prune"], episode=it["episode"]))
         if not o["ok"]:
             res.fail("invalid_schedule", f"seed={t['args']['seed']} ({t['args']['spec_kind']}) {it['mode']} prune={it['prune']} episode {it['episode']}: Graph.timings violates: {'; '.join(o['failing'])}",
                      dict(task=t, spec=r["spec"], mode=it["mode"], prune=it["prune"], episode=it["episode"], failing=o["failing"]))
